@@ -18,7 +18,7 @@ tvars == <<tid, l, o, dr, vars>>
 
 O0 == [ptr |-> "open", queue |-> [i \in 1..MaxSize |-> NONE], open |-> {}, holds |-> [t \in Threads |-> {}],
        lastio |-> <<>>, cur |-> [t \in Threads |-> <<>>], got |-> [t \in Threads |-> <<>>], outs |-> {},
-       dropped |-> FALSE, alive |-> Procs, waiting |-> {}]
+       dropped |-> FALSE, alive |-> Procs, waiting |-> {}, pre |-> {}, sep |-> {}, parked |-> {}]
 
 SeqSet(s) == {s[i] : i \in 1..Len(s)}
 Hold(ob, t, c) == IF t \in Threads /\ c # NONE THEN [ob.holds EXCEPT ![t] = @ \cup {c}] ELSE ob.holds
@@ -27,15 +27,20 @@ Unhold(ob, t) == IF t \in Threads THEN [ob.holds EXCEPT ![t] = {}] ELSE ob.holds
 \* the observable state after event e (fields of e: e, t, c, s, q, res, r, out, bt, br, set)
 Upd(ob, e) ==
     LET b == [ob EXCEPT !.lastio = <<>>] IN
-    CASE e.e = "start" -> [b EXCEPT !.cur = [@ EXCEPT ![e.t] = <<e.t, e.r>>], !.got = [@ EXCEPT ![e.t] = <<>>]]
+    CASE e.e = "start" -> [b EXCEPT !.cur = [@ EXCEPT ![e.t] = <<e.t, e.r>>], !.got = [@ EXCEPT ![e.t] = <<>>],
+                                    !.sep = @ \ {e.t}]
+      [] e.e = "load" -> [b EXCEPT !.sep = IF e.res = "separate" THEN @ \cup {e.t} ELSE @ \ {e.t}]
+      [] e.e = "block" -> [b EXCEPT !.parked = @ \cup {e.t}]
       [] e.e = "get" /\ e.res = "ok" /\ e.q = 1 ->
-             [b EXCEPT !.queue = IF @ # <<>> THEN Pop(@) ELSE @, !.holds = Hold(b, e.t, e.c)]
+             [b EXCEPT !.queue = IF @ # <<>> THEN Pop(@) ELSE @, !.holds = Hold(b, e.t, e.c),
+                       !.sep = @ \ {e.t}, !.parked = @ \ {e.t}]
+      [] e.e = "get" /\ e.res = "empty" -> [b EXCEPT !.sep = @ \ {e.t}]
       [] e.e = "new" -> [b EXCEPT !.holds = Hold(b, e.t, e.c)]
       [] e.e = "dial" -> [b EXCEPT !.open = @ \cup {e.s}]
       [] e.e = "sclose" -> [b EXCEPT !.open = @ \ {e.s}]
       [] e.e = "io" -> [b EXCEPT !.lastio = IF e.t \in Threads THEN <<e.t, e.c>> ELSE <<>>]
       [] e.e = "put" /\ e.q = 1 -> [b EXCEPT !.queue = IF e.res = "ok" THEN Append(@, e.c) ELSE @, !.holds = Unhold(b, e.t)]
-      [] e.e = "swap" -> [b EXCEPT !.ptr = "closed"]
+      [] e.e = "swap" -> [b EXCEPT !.ptr = "closed", !.pre = b.parked]
       [] e.e = "end" -> [b EXCEPT !.outs = @ \cup {[o |-> e.out, closed |-> b.ptr = "closed"]},
                                   !.got = IF e.t \in Threads THEN [@ EXCEPT ![e.t] = IF e.out = "resp" THEN <<e.bt, e.br>> ELSE <<>>]
                                                               ELSE @,
